@@ -298,8 +298,8 @@ def universe2 : List M := level (level leaves)
 /-- the separating value domain -/
 def domain : List Val :=
   [.none, .int 0, .int 1, .int 2, .str c!"a", .list [], .list [.int 1], .list [.int 0], .list [.int 2, .str c!"a"],
-   .list [.list [.int 1]], .dict [c!"k"] [.int 1], .dict [c!"k"] [.int 0], .dict [c!"k"] [.list [.int 1]],
-   .list [.dict [c!"k"] [.int 1]], .dict [] []]
+   .list [.list [.int 1]], .dict [.str c!"k"] [.int 1], .dict [.str c!"k"] [.int 0], .dict [.str c!"k"] [.list [.int 1]],
+   .list [.dict [.str c!"k"] [.int 1]], .dict [] []]
 
 /-- the matcher accepts the value (an exception is not an acceptance) -/
 def accepts (m : M) (v : Val) : Bool :=
